@@ -241,3 +241,309 @@ Qed.
 
 End ONE.
 End SOUND.
+
+(* ================================================================ the state machine: call *)
+Lemma mapM_Forall2 : forall {X Y Z} (f : Y -> res Z) (g : X -> res Z) l l',
+  Forall2 (fun x y => f y = g x) l l' -> mapM f l' = mapM g l.
+Proof.
+  induction 1; cbn [mapM]; auto. rewrite H, IHForall2. reflexivity.
+Qed.
+
+Lemma F2_impl : forall {X Y} (R1 R2 : X -> Y -> Prop) l l',
+  (forall a b, R1 a b -> R2 a b) -> Forall2 R1 l l' -> Forall2 R2 l l'.
+Proof. induction 2; constructor; auto. Qed.
+
+Section MACHINE.
+Context {F : Type} (A : falg F).
+Variables vt lt : list (N * rule).
+Notation lst := (@lstate F).
+
+Definition compiled_as (s : lst) (e : expr) (p : nat * @clo F) : Prop :=
+  fst p = eval_fuel e /\
+  compile A (eval_fuel e) vt lt (st_syms s) (st_map s) (length (st_buf s)) e = Ok (snd p).
+
+Lemma compile_in_ok : forall s e p, compile_in A vt lt s e = Ok p -> compiled_as s e p.
+Proof.
+  intros s e p H. unfold compile_in in H.
+  destruct (compile A (eval_fuel e) vt lt (st_syms s) (st_map s) (length (st_buf s)) e) eqn:E; try discriminate.
+  inversion H; subst. split; auto.
+Qed.
+
+(* successful push_results: the new results are the compiled outputs, nothing else changes *)
+Lemma push_results_spec : forall outs s s',
+  push_results A vt lt s outs = (s', Ok tt) ->
+  exists ks, st_results s' = st_results s ++ ks /\ Forall2 (compiled_as s) outs ks /\
+             st_fns s' = st_fns s /\ st_map s' = st_map s /\ st_buf s' = st_buf s /\ st_syms s' = st_syms s.
+Proof.
+  induction outs as [| e outs IH]; intros s s' H; cbn [push_results] in H.
+  - inversion H; subst. exists []. rewrite app_nil_r. repeat split; auto.
+  - destruct (compile_in A vt lt s e) as [p | | |] eqn:Ec; try (inversion H; fail).
+    apply IH in H. destruct H as [ks [Hr [Hf [H1 [H2 [H3 H4]]]]]]. cbn in *.
+    exists (p :: ks). rewrite Hr, <- app_assoc. repeat split; auto.
+    constructor; [ apply compile_in_ok; auto | ].
+    eapply F2_impl; [ | exact Hf ]. intros a b Hab. exact Hab.
+Qed.
+
+Lemma push_reduced_spec : forall reduced n i s s',
+  push_reduced A vt lt s reduced n i = (s', Ok tt) ->
+  exists ks, st_results s' = st_results s ++ ks /\ Forall2 (compiled_as s) (firstn n (skipn i reduced)) ks /\
+             st_fns s' = st_fns s /\ st_map s' = st_map s /\ st_buf s' = st_buf s /\ st_syms s' = st_syms s.
+Proof.
+  intros reduced. induction n as [| n IH]; intros i s s' H; cbn [push_reduced] in H.
+  - inversion H; subst. exists []. rewrite app_nil_r. repeat split; auto. cbn. constructor.
+  - destruct (nth_error reduced i) as [e |] eqn:En; [ | inversion H ].
+    destruct (compile_in A vt lt s e) as [p | | |] eqn:Ec; try (inversion H; fail).
+    apply IH in H. destruct H as [ks [Hr [Hf [H1 [H2 [H3 H4]]]]]]. cbn in *.
+    exists (p :: ks). rewrite Hr, <- app_assoc. repeat split; auto.
+    assert (Hsk : skipn i reduced = e :: skipn (S i) reduced).
+    { clear -En. revert reduced En. induction i; intros [| a l] En; cbn in *; try discriminate.
+      - inversion En; reflexivity.
+      - apply IHi; auto. }
+    rewrite Hsk. cbn [firstn]. constructor; [ apply compile_in_ok; auto | ].
+    eapply F2_impl; [ | exact Hf ]. intros a b Hab. exact Hab.
+Qed.
+
+(* call on a state without CSE closures *)
+Theorem call_no_cse : forall s v outs,
+  st_fns s = [] -> st_map s = [] -> Forall2 (compiled_as s) outs (st_results s) ->
+  snd (call A s v) = mapM (fun e => eval A (eval_fuel e) vt lt (st_syms s) v [] e) outs.
+Proof.
+  intros s v outs Hf Hm Hc. unfold call. rewrite Hf. cbn [run_fns]. cbn [snd].
+  apply mapM_Forall2. clear Hf.
+  induction Hc as [| e p outs ks [Hfu Hcp] Hrest IH]; constructor; auto.
+  rewrite Hfu. rewrite Hm in Hcp.
+  apply (compile_sound A vt lt (st_syms s) [] (length (st_buf s)) v (st_buf s) []); auto.
+  intros x. reflexivity.
+Qed.
+
+(* after a successful init without CSE, call returns the values of the outputs at the inputs *)
+Theorem call_sound : forall cf s xs es v,
+  (cf = true \/ st_map s = []) ->
+  snd (init A vt lt cf s xs es NoCse) = Ok tt ->
+  snd (call A (fst (init A vt lt cf s xs es NoCse)) v)
+  = mapM (fun e => eval A (eval_fuel e) vt lt xs v [] e) es.
+Proof.
+  intros cf s xs es v Hmap Hok. unfold init in *.
+  assert (Hm : (if cf then [] else st_map s) = @nil (expr * nat)).
+  { destruct Hmap as [-> | ->]; auto. destruct cf; auto. }
+  rewrite Hm in *.
+  destruct (push_results A vt lt (mk_st [] [] [] (st_buf s) xs) es) as [s' r] eqn:E. cbn [fst snd] in *. subst r.
+  apply push_results_spec in E. destruct E as [ks [Hr [Hf [H1 [H2 [H3 H4]]]]]]. cbn in *.
+  rewrite <- H4.
+  apply call_no_cse; auto.
+  rewrite Hr. clear -Hf H2 H3 H4. unfold compiled_as in *. rewrite H2, H3, H4.
+  induction Hf; constructor; auto.
+Qed.
+
+End MACHINE.
+
+(* ================================================================ the state machine: CSE *)
+Section CSE.
+Context {F : Type} (A : falg F).
+Variables vt lt : list (N * rule).
+Notation lst := (@lstate F).
+
+(* the values of the replacement symbols, computed one after the other; each may use the earlier ones *)
+Fixpoint eval_reps (xs : list expr) (v : list F) (reps : list (expr * expr)) (extra : list (expr * F))
+  : res (list (expr * F)) :=
+  match reps with
+  | [] => Ok extra
+  | (sym, ex) :: r =>
+      do val <- eval A (eval_fuel ex) vt lt xs v extra ex; eval_reps xs v r (map_set extra sym val)
+  end.
+
+(* map and environment have the same keys in the same order; slot = value *)
+Definition lockstep (cmap : list (expr * nat)) (extra : list (expr * F)) (buf : list F) : Prop :=
+  Forall2 (fun p q => fst p = fst q /\ nth_error buf (snd p) = Some (snd q)) cmap extra.
+Definition idx_below (cmap : list (expr * nat)) (j : nat) : Prop := Forall (fun p => (snd p < j)%nat) cmap.
+
+Lemma lockstep_env_rel : forall cmap extra buf bufsz, lockstep cmap extra buf -> env_rel cmap bufsz buf extra.
+Proof.
+  induction 1 as [| [k idx] [k' val] cm ex [Hk Hn] Hrest IH]; intro s; cbn.
+  - reflexivity.
+  - cbn in Hk, Hn. subst k'. destruct (expr_eqb k s).
+    + intros _. eauto.
+    + apply IH.
+Qed.
+
+Lemma snth_length : forall i v (l : list F), length (set_nth i v l) = length l.
+Proof. induction i; intros v [| a l]; cbn; auto. Qed.
+Lemma snth_same : forall i v (l : list F), (i < length l)%nat -> nth_error (set_nth i v l) i = Some v.
+Proof. induction i; intros v [| a l] H; cbn in *; try lia; auto. apply IHi. lia. Qed.
+Lemma snth_other : forall i x v (l : list F), x <> i -> nth_error (set_nth i v l) x = nth_error l x.
+Proof. induction i; intros x v [| a l] H; cbn; auto; destruct x; cbn; auto; try lia. Qed.
+
+Lemma lockstep_keep : forall cmap extra buf j val,
+  lockstep cmap extra buf -> idx_below cmap j -> lockstep cmap extra (set_nth j val buf).
+Proof.
+  induction 1 as [| [k idx] [k' v'] cm ex [Hk Hn] Hrest IH]; intros Hb; constructor.
+  - cbn in *. split; auto. inversion Hb; subst. cbn in *. rewrite snth_other; auto. lia.
+  - apply IH. inversion Hb; auto.
+Qed.
+
+Lemma lockstep_set : forall cmap extra buf sym j val,
+  lockstep cmap extra buf -> idx_below cmap j -> (j < length buf)%nat ->
+  lockstep (map_set cmap sym j) (map_set extra sym val) (set_nth j val buf).
+Proof.
+  induction 1 as [| [k idx] [k' v'] cm ex [Hk Hn] Hrest IH]; intros Hb Hj; cbn.
+  - constructor; [ | constructor ]. cbn. split; auto. apply snth_same; auto.
+  - cbn in Hk, Hn. subst k'. inversion Hb as [| ? ? Hidx Hb']; subst. cbn in Hidx.
+    destruct (expr_eqb k sym).
+    + constructor.
+      * cbn. split; auto. apply snth_same; auto.
+      * apply lockstep_keep; auto.
+    + constructor.
+      * cbn. split; auto. rewrite snth_other; auto. lia.
+      * apply IH; auto.
+Qed.
+
+Lemma idx_below_set : forall cmap sym j, idx_below cmap j -> idx_below (map_set cmap sym j) (S j).
+Proof.
+  induction cmap as [| [k i] cm IH]; intros sym j H; cbn.
+  - constructor; [ cbn; lia | constructor ].
+  - inversion H; subst. cbn in *. destruct (expr_eqb k sym); constructor; cbn; try lia.
+    + clear -H3. unfold idx_below in *. rewrite Forall_forall in *. intros p Hp. specialize (H3 p Hp). lia.
+    + apply IH; auto.
+Qed.
+
+Lemma push_reps_shape : forall reps s s3, push_reps A vt lt s reps = (s3, Ok tt) ->
+  exists ks, st_fns s3 = st_fns s ++ ks /\ st_results s3 = st_results s /\ st_buf s3 = st_buf s /\ st_syms s3 = st_syms s.
+Proof.
+  induction reps as [| [sy e] r IHr]; intros t t3 Ht; cbn [push_reps] in Ht.
+  - inversion Ht; subst. exists []. rewrite app_nil_r. auto.
+  - destruct (compile_in A vt lt t e) as [q | | |]; try (inversion Ht; fail).
+    apply IHr in Ht. destruct Ht as [ks [H1 [H2 [H3 H4]]]]. cbn in *. exists (q :: ks). rewrite H1, <- app_assoc. auto.
+Qed.
+
+(* the closures of the replacements, run in order, compute eval_reps and fill the buffer *)
+Lemma reps_run : forall xs v reps s s3 extra buf,
+  push_reps A vt lt s reps = (s3, Ok tt) ->
+  st_syms s = xs -> length buf = length (st_buf s) ->
+  lockstep (st_map s) extra buf -> idx_below (st_map s) (length (st_fns s)) ->
+  (length (st_fns s) + length reps <= length buf)%nat ->
+  exists ks, st_fns s3 = st_fns s ++ ks /\ st_results s3 = st_results s /\ st_buf s3 = st_buf s /\ st_syms s3 = st_syms s /\
+    match eval_reps xs v reps extra with
+    | Ok extra' => exists buf', run_fns A v buf (length (st_fns s)) ks = (buf', Ok tt) /\ length buf' = length buf /\
+                                lockstep (st_map s3) extra' buf'
+    | ErrOOB a b => exists buf', run_fns A v buf (length (st_fns s)) ks = (buf', ErrOOB a b)
+    | ErrFuel => exists buf', run_fns A v buf (length (st_fns s)) ks = (buf', ErrFuel)
+    | ErrExn c => exists buf', run_fns A v buf (length (st_fns s)) ks = (buf', ErrExn c)
+    end.
+Proof.
+  intros xs v. induction reps as [| [sym ex] reps IH]; intros s s3 extra buf Hp Hs Hl Hk Hb Hcap; cbn [push_reps] in Hp.
+  - inversion Hp; subst. exists []. rewrite app_nil_r. cbn. repeat split; auto. exists buf. auto.
+  - destruct (compile_in A vt lt s ex) as [[fu k] | | |] eqn:Ec; try (inversion Hp; fail).
+    apply compile_in_ok in Ec. destruct Ec as [Hfu Hcp]. cbn in Hfu, Hcp. subst fu.
+    set (s1 := mk_st (st_results s) (st_fns s ++ [(eval_fuel ex, k)])
+                     (map_set (st_map s) sym (length (st_fns s))) (st_buf s) (st_syms s)) in *.
+    cbn [length] in Hcap.
+    assert (Hrun : run A (eval_fuel ex) v buf k = eval A (eval_fuel ex) vt lt xs v extra ex).
+    { rewrite <- Hs. apply (compile_sound A vt lt (st_syms s) (st_map s) (length (st_buf s)) v buf extra); auto.
+      apply lockstep_env_rel; auto. }
+    cbn [eval_reps].
+    destruct (eval A (eval_fuel ex) vt lt xs v extra ex) as [val | a b | | c] eqn:Ev; cbn [bind].
+    + (* the replacement evaluates: continue with the updated buffer and environment *)
+      assert (Hi : (length (st_fns s) < length buf)%nat) by lia.
+      specialize (IH s1 s3 (map_set extra sym val) (set_nth (length (st_fns s)) val buf) Hp).
+      assert (Hlen1 : length (st_fns s1) = S (length (st_fns s))) by (cbn; rewrite app_length; cbn; lia).
+      destruct IH as [ks [Hf3 [Hr3 [Hb3 [Hs3 Hm]]]]]; cbn; auto.
+      * rewrite snth_length; auto.
+      * apply lockstep_set; auto.
+      * rewrite app_length. cbn. replace (length (st_fns s) + 1)%nat with (S (length (st_fns s))) by lia.
+        apply idx_below_set; auto.
+      * rewrite snth_length, app_length. cbn. lia.
+      * exists ((eval_fuel ex, k) :: ks). cbn in Hf3. rewrite <- app_assoc in Hf3. cbn in Hf3.
+        repeat split; auto. cbn [run_fns]. rewrite Hrun.
+        apply Nat.ltb_lt in Hi. rewrite Hi. rewrite Hlen1 in Hm.
+        destruct (eval_reps xs v reps (map_set extra sym val)) as [extra' | a b | | c].
+        -- destruct Hm as [buf' [H1 [H2 H3]]]. exists buf'. rewrite snth_length in H2. auto.
+        -- auto.
+        -- auto.
+        -- auto.
+    + (* errors of the replacement are the errors of the call; the remaining closures exist *)
+      assert (Hex : exists ks, st_fns s3 = st_fns s ++ (eval_fuel ex, k) :: ks /\ st_results s3 = st_results s /\
+                               st_buf s3 = st_buf s /\ st_syms s3 = st_syms s).
+      { apply push_reps_shape in Hp. destruct Hp as [ks [H1 [H2 [H3 H4]]]]. cbn in *. exists ks. rewrite H1, <- app_assoc. auto. }
+      destruct Hex as [ks [H1 [H2 [H3 H4]]]]. exists ((eval_fuel ex, k) :: ks). repeat split; auto.
+      cbn [run_fns]. rewrite Hrun. cbn [err_of]. eauto.
+    + assert (Hex : exists ks, st_fns s3 = st_fns s ++ (eval_fuel ex, k) :: ks /\ st_results s3 = st_results s /\
+                               st_buf s3 = st_buf s /\ st_syms s3 = st_syms s).
+      { apply push_reps_shape in Hp. destruct Hp as [ks [H1 [H2 [H3 H4]]]]. cbn in *. exists ks. rewrite H1, <- app_assoc. auto. }
+      destruct Hex as [ks [H1 [H2 [H3 H4]]]]. exists ((eval_fuel ex, k) :: ks). repeat split; auto.
+      cbn [run_fns]. rewrite Hrun. cbn [err_of]. eauto.
+    + assert (Hex : exists ks, st_fns s3 = st_fns s ++ (eval_fuel ex, k) :: ks /\ st_results s3 = st_results s /\
+                               st_buf s3 = st_buf s /\ st_syms s3 = st_syms s).
+      { apply push_reps_shape in Hp. destruct Hp as [ks [H1 [H2 [H3 H4]]]]. cbn in *. exists ks. rewrite H1, <- app_assoc. auto. }
+      destruct Hex as [ks [H1 [H2 [H3 H4]]]]. exists ((eval_fuel ex, k) :: ks). repeat split; auto.
+      cbn [run_fns]. rewrite Hrun. cbn [err_of]. eauto.
+Qed.
+
+Lemma resize_len : forall n (b : list F), length (resize A n b) = n.
+Proof.
+  intros n b. unfold resize. rewrite app_length, firstn_length, repeat_length. lia.
+Qed.
+
+(* after a successful init WITH CSE, call computes the replacements in order and then the reduced
+   expressions in the environment of their values *)
+Theorem cse_call_spec : forall cf s xs es reps reduced v,
+  (cf = true \/ st_map s = []) ->
+  snd (init A vt lt cf s xs es (CseOk reps reduced)) = Ok tt ->
+  snd (call A (fst (init A vt lt cf s xs es (CseOk reps reduced))) v)
+  = (do extra <- eval_reps xs v reps [];
+     mapM (fun e => eval A (eval_fuel e) vt lt xs v extra e) (firstn (length es) reduced)).
+Proof.
+  intros cf s xs es reps reduced v Hmap Hok. unfold init in *.
+  assert (Hm : (if cf then [] else st_map s) = @nil (expr * nat)).
+  { destruct Hmap as [-> | ->]; auto. destruct cf; auto. }
+  rewrite Hm in *. cbn [st_map st_buf] in *.
+  set (s2 := mk_st [] [] [] (resize A (length reps) (st_buf s)) xs) in *.
+  destruct (push_reps A vt lt s2 reps) as [s3 r3] eqn:E3.
+  destruct r3 as [[] | | |]; try (cbn in Hok; discriminate Hok).
+  destruct (push_reduced A vt lt s3 reduced (length es) 0) as [s4 r4] eqn:E4.
+  destruct r4 as [[] | | |]; try (cbn in Hok; discriminate Hok).
+  cbn [fst snd] in *.
+  destruct (reps_run xs v reps s2 s3 [] (st_buf s2) E3 eq_refl eq_refl) as [ks [Hf3 [Hr3 [Hb3 [Hs3 Hrun]]]]].
+  { constructor. }
+  { constructor. }
+  { cbn. rewrite resize_len. lia. }
+  apply push_reduced_spec in E4. destruct E4 as [kr [Hr4 [Hc4 [Hf4 [Hm4 [Hb4 Hs4]]]]]].
+  cbn in Hf3, Hr3, Hb3, Hs3. cbn [skipn] in Hc4.
+  unfold call. cbn [st_fns st_buf st_results].
+  rewrite Hf4, Hf3, Hb4, Hb3. cbn [length] in Hrun.
+  destruct (eval_reps xs v reps []) as [extra' | a b | | c]; cbn [bind].
+  - destruct Hrun as [buf' [H1 [H2 H3]]]. cbn in H1. rewrite H1. cbn [fst snd].
+    rewrite Hr4, Hr3. cbn [app].
+    apply mapM_Forall2.
+    eapply F2_impl; [ | exact Hc4 ]. intros e p [Hfu Hcp]. cbn beta. rewrite Hfu.
+    rewrite Hs3 in Hcp. cbn in Hcp.
+    apply (compile_sound A vt lt xs (st_map s3) (length (st_buf s3)) v buf' extra'); auto.
+    apply lockstep_env_rel; auto.
+  - destruct Hrun as [buf' H1]. cbn in H1. rewrite H1. reflexivity.
+  - destruct Hrun as [buf' H1]. cbn in H1. rewrite H1. reflexivity.
+  - destruct Hrun as [buf' H1]. cbn in H1. rewrite H1. reflexivity.
+Qed.
+
+(* faithfulness of the CSE result at one input vector (what C37 establishes for cse()):
+   evaluating the replacements in order and then the reduced expressions gives the values of
+   the original outputs *)
+Definition cse_faithful_at (xs : list expr) (v : list F) (es : list expr) (reps : list (expr * expr))
+           (reduced : list expr) : Prop :=
+  (do extra <- eval_reps xs v reps [];
+   mapM (fun e => eval A (eval_fuel e) vt lt xs v extra e) (firstn (length es) reduced))
+  = mapM (fun e => eval A (eval_fuel e) vt lt xs v [] e) es.
+
+(* enabling CSE does not change the results *)
+Theorem cse_transparent : forall cf s s' xs es reps reduced v,
+  (cf = true \/ st_map s = []) -> (cf = true \/ st_map s' = []) ->
+  snd (init A vt lt cf s xs es (CseOk reps reduced)) = Ok tt ->
+  snd (init A vt lt cf s' xs es NoCse) = Ok tt ->
+  cse_faithful_at xs v es reps reduced ->
+  snd (call A (fst (init A vt lt cf s xs es (CseOk reps reduced))) v)
+  = snd (call A (fst (init A vt lt cf s' xs es NoCse)) v).
+Proof.
+  intros cf s s' xs es reps reduced v H1 H2 Ho1 Ho2 Hf.
+  rewrite (cse_call_spec cf s xs es reps reduced v H1 Ho1).
+  rewrite (call_sound A vt lt cf s' xs es v H2 Ho2). exact Hf.
+Qed.
+
+End CSE.
